@@ -7,8 +7,20 @@ PROP = {'lean_props': ['Comrak.Props.C06'],
  'required_theorems': ['escape_len',
                        'escapeHref_len',
                        'backticks_linear',
+                       'backticks_pos_linear',
+                       'btLoopPos_amortised',
                        'btLoop_bound',
+                       'emphasis_terminates',
+                       'emphasis_linear',
+                       'emphasis_linear_pinned',
+                       'emphasis_quadratic_counterexample',
                        'dollar_quadratic',
+                       'cdSteps_pieces',
+                       'cdScan_fail_cost',
+                       'html_enter_size',
+                       'html_exit_size',
+                       'html_size_bound_partial',
+                       'html_size_bound_noids_partial',
                        'refmap_budget',
                        'autocomplete_cap',
                        'xml_indent_cap',
@@ -16,24 +28,42 @@ PROP = {'lean_props': ['Comrak.Props.C06'],
                        'paren_depth_bounded'],
  'timeout_quick': 900,
  'timeout_thorough': 3400,
- 'strength': 'partial (caps, memo, size bounds): theorems for the escapers, the backtick scanner with its memo, the reference budget and the '
-             'caps; linearity of the block parser, the inline loop and process_emphasis is measured by the search stage (deterministic step '
+ 'strength': 'partial (memos, opener search, caps, size bounds): theorems for the escapers, the backtick scanner with its positional memo as '
+             'implemented (3n), process_emphasis (termination; 14 n + chars for the loop with openers_bottom raised after every failed search and '
+             'for the pinned loop on texts without an odd match; quadratic lower bound for the pinned loop on the rule-of-three family), the '
+             'code-dollar scanner (quadratic lower bound, abstraction = sum of failed scans), HTML output size (per node for all 41 kinds, whole '
+             'trees without footnote definitions), the reference budget and the caps; the three cost models are tied to the real step counters by '
+             'equality in K; linearity of the block parser and of the whole inline loop is measured by the search stage (deterministic step '
              'counters on input families, always at full volume), not proved',
  'trusted_base': ['the step counters count what the hook lines bump (one per loop iteration / byte scanned in the instrumented loops); work done '
                   'outside the instrumented loops is only seen by the wall-clock backstop of the isolated worker',
-                  "backticks_linear is proved for the specification-level memo (btSteps); the positional memo of the code (btStepsPos, which can "
-                  'forget a closer) is tied to the real counter by equality on exhaustive short and random texts, and the 3n bound is checked on '
-                  'every one of those texts'],
+                  'backticks_pos_linear is proved for the positional memo model btStepsPos (run-level: gaps and run lengths); that this model '
+                  'counts what the code counts is the K stage (equality with the real backtick-scan counter on exhaustive short and random '
+                  'texts), and the 3n bound is checked again on every one of those texts',
+                  'emphasis_linear / emphasis_linear_pinned are proved for the delimiter-stack model emLoop; that the model counts what the code '
+                  'counts is the K stage (equality with the real emphasis-opener-search counter on all one-paragraph texts over {*,_,a,space} up to '
+                  'length 8/9 and on random texts; delimiter runs are extracted by a driver-side model of scan_delims for ASCII); smart quotes and '
+                  'the ~ length-mismatch exit of insert_emph are not modelled',
+                  'cdSteps / dlSteps: equality with the real dollar-scan counter with math_code on and math_dollars off on texts over {$,`,a,\\}; '
+                  'scan_to_closing_dollar (math_dollars) is not modelled (its quadratic family is a known finding measured by S)',
+                  'html_size_bound_partial is about the model renderHtml of Html.lean (tied to format_html by the byte-equality K of C10/C02/C18), '
+                  'for trees without footnote definitions; heading anchors are bounded by hypothesis'],
  'assumptions': ['growth is judged between the two largest sizes of each family (log-log slope <= 1.25 + 0.10), output against 160 n + 4096 bytes']}
 
-TEXT = {'text': 'Proof (partial). Lean proves: escape and escape_href write at most 6 bytes per input byte; the backtick scanner with its memo takes at '
-         'most 3n counted steps over a whole inline text (amortised: one step per opener, every byte scanned at most once by a successful scan, at '
-         'most one unsuccessful scan to the end, which sets the flag); the memo-less code-dollar scanner takes exactly (p+1) n (n+1)/2 steps on n '
+TEXT = {'text': 'Proof (partial). Lean proves: escape and escape_href write at most 6 bytes per input byte; the backtick scanner with its positional memo, as '
+         'implemented, takes at most 3n counted steps over a whole inline text (a memo entry ahead of the current position always points at a run '
+         'that is still ahead, so after the first scan that runs to the end no scan fails again); process_emphasis terminates and its opener search '
+         'takes at most 14 n + chars steps when openers_bottom is raised after every failed search, and also as pinned on texts without an odd '
+         'match, while the pinned loop takes at least m^2/2 steps on 4m delimiter runs of the rule-of-three family (known finding); the HTML '
+         'formatter model writes at most 6 bytes per byte of document text + 364 bytes per node + the decimal strings (trees without footnote '
+         'definitions, header_ids off or anchors bounded); the memo-less code-dollar scanner takes (p+1) n (n+1)/2 - n steps on n '
          'unclosed openers (quadratic lower bound, a defect of the pinned tree listed as a known finding); the reference-expansion budget is never '
          'exceeded; table autocompletion stops within one row of MAX_AUTOCOMPLETED_CELLS; XML indentation is capped at 40; link-label scans give up '
-         'after 1001 steps; URL parenthesis depth is capped at 32. Tie to the code: the real backtick-scan step counter (hook comrak::verif::steps, '
-         'cfg(comrak_verif)) equals the Lean positional cost model on all one-paragraph texts over {a,`} up to length 11 (quick) / 14 (thorough) '
-         'and on random texts with runs up to 200, and stays below the proved bound. Search (always full volume): for every fragment up to length '
+         'after 1001 steps; URL parenthesis depth is capped at 32. Tie to the code (hook comrak::verif::steps, cfg(comrak_verif)), equality of step '
+         'counts: backtick-scan == the positional cost model on all one-paragraph texts over {a,`} up to length 11 (quick) / 14 (thorough) and on '
+         'random texts with runs up to 200; dollar-scan (math_code) == the byte-level model on all texts over {$,`,a,\\} up to length 8 / 9 and '
+         'random ones, and == cdSteps of the pieces when every scan runs to the end; emphasis-opener-search == the delimiter-stack model on all '
+         'texts over {*,_,a,space} up to length 8 / 9, random ones and the rule-of-three family; the proved bounds are re-checked on every text. Search (always full volume): for every fragment up to length '
          '3/4 over a 30-symbol Markdown alphabet and ~150 curated shapes, families f^n, (f LF)^n, f^n a mirror(f)^n and tree-shaped repetitions '
          'are parsed and rendered (HTML, CommonMark, XML) under default, GFM and all-extensions options in isolated workers; the log-log slope '
          'of the 12 summed step counters between the two largest n must stay <= 1.25 and output <= 160 n + 4096. Four super-linear classes of '
